@@ -89,6 +89,17 @@ def register(R):
                         and len(fc.fields['_args']) == 2 and fc.fields['_args'][1] is acq[0].result \
                         and adc[0].recv is sub[0].result
         out['release_of_the_same_permit_attached_to_the_task_future'] = B(bool(okrel))
+        # the permit is keyed by the TRANSFER the task belongs to (the sliding-window semaphore keeps one window per key:
+        # keyed by anything shared, unrelated transfers of one manager would wait for each other's lowest part, C18 / C12),
+        # and given back under the same key
+        tid = c.old.f(c.old.f(c.a_task, '_transfer_coordinator'), 'transfer_id')
+        same = lambda a, b: a is b or (z3.is_expr(a) and z3.is_expr(b) and a.eq(b))
+        keyed = len(acq) == 1 and same(acq[0].extra['env'].get('tag'), tid)
+        if okrel:
+            keyed = keyed and same(fc.fields['_args'][0], tid)
+        # (a TaskSemaphore only logs the key, so the clause is stated where the key matters: the sliding-window semaphore)
+        if isinstance(want, Ref) and c.old.obj(want).cls.name == 'SlidingWindowSemaphore':
+            out['permit_is_keyed_by_the_tasks_own_transfer'] = (B(bool(keyed)), ['C18', 'C12', 'C10', 'C11'])
         return out
 
     R.contract(
